@@ -478,6 +478,17 @@ CLAIMED["C18"]["text"] += (" Round 7: the PEAK value field is exact below FLT_MI
                             "maxima (all six containers, both encodings, doubles between two subnormal floats, FLT_MIN as boundary) run on every seed; nothing below FLT_MIN is waived any more.")
 
 
+# ---- round 8 (worker c15fix): the two open C15 findings are repaired (appended, the texts above are unchanged) ----
+CLAIMED["C15"]["text"] += (" Round 8: KF-C15-HEADER-POSITION and KF-C15-PARTIAL-FRAME are repaired, no C15 finding is open and the check waives nothing. Seek latch: psf_fseek records a failure in psf->file.seek_failed, "
+                            "psf_fwrite transfers nothing until a psf_fseek succeeds (Sf.Faults.seekFailed = a function of the callback history, fwrite; old rule fwriteOld); paf_write_header seeks to offset 0. "
+                            "SfProps/C15Latch.lean: header_write_contained (au / wav header rewrites change no byte at or behind the header length, memory store under ANY fault), write_refused_after_failed_seek "
+                            "(every oracle), failed_seek_latches, latch_only_moved_by_seeks, header_over_audio_old_rule. Whole frames: the 18 read / write wrappers round a count that ends inside a frame down and clear "
+                            "psf->last_op (Sf.Faults.wholeFrames); SfProps/C15.lean: position_matches_count and position_matches_count_write at FULL strength for every oracle, partial_frame_clears_last_op, "
+                            "next_read_seeks_after_partial_frame, position_matches_count_exact_old_rule (the former class was exact), readTail_eq_old_outside_class. The prefix clause exempts only the bytes of a torn "
+                            "frame (a fragment the write call did not report; iolog verdict ranges= vs c15lib.torn_regions).")
+CLAIMED["C05"]["text"] += (" Round 8: 'a whole number of frames' holds under failing I/O as well (KF-C15-PARTIAL-FRAME repaired: Sf.C15.position_matches_count / position_matches_count_write, every oracle; "
+                            "SfProps/C15.lean now also belongs to C05).")
+
 def main():
     checks = []
     for p in PROPS:
